@@ -26,20 +26,43 @@ from harness import core
 TOPIC = "t"
 
 
-def build_log(rng, cluster, small):
-    """Fill t/0.  Returns nothing; the ground truth is cluster.log_of(TOPIC, 0).messages()."""
+def _multi_member(rng, cluster):
+    """Rewrite the compressed wrapper just appended so that its payload is a MULTI-MEMBER gzip stream (RFC 1952:
+    members concatenated; what a flush-per-batch compressor writes and a broker stores verbatim), cut at
+    arbitrary byte positions of the inner message set."""
+    from harness.sim import refcodec as R
+
+    e = cluster.log_of(TOPIC, 0).entries[-1]
+    raw = R.gzip_decompress(e.msg["value"])
+    if len(raw) < 2:
+        return False
+    cuts = sorted(set(rng.randrange(1, len(raw)) for _ in range(rng.choice([1, 1, 2]))))
+    parts = [raw[a:b] for a, b in zip([0] + cuts, cuts + [len(raw)])]
+    e.msg = dict(e.msg, value=b"".join(R.gzip_compress(p) for p in parts))
+    e._raw = None
+    return True
+
+
+def build_log(rng, cluster, small, big=False, stats=None):
+    """Fill t/0.  Returns nothing; the ground truth is cluster.log_of(TOPIC, 0).messages().
+    `big`: at least one message is (much) larger than the small fetch buffers."""
     c = cluster
+    stats = stats if stats is not None else {}
     c.add_topic(TOPIC, partitions=1)
     n_seg = rng.randrange(2, 7)
+    big_seg = rng.randrange(n_seg) if big else -1
     v = 0
     if rng.random() < 0.3:
         c.log_of(TOPIC, 0).skip(rng.randrange(1, 5))
-    for _ in range(n_seg):
+    for seg in range(n_seg):
         k = rng.randrange(1, 5)
         vals = []
-        for _ in range(k):
+        for j in range(k):
             r = rng.random()
-            if r < 0.08:
+            if seg == big_seg and j == 0:
+                vals.append(bytes([97 + v % 26]) * rng.choice([600, 2000, 5000, 20000]))
+                stats["big"] = stats.get("big", 0) + 1
+            elif r < 0.08:
                 vals.append(None)
             elif r < 0.16:
                 vals.append(b"")
@@ -68,6 +91,9 @@ def build_log(rng, cluster, small):
             c.append(TOPIC, 0, vals, keys=keys, magic=1, codec="gzip", offsets=offs)
         else:
             c.append(TOPIC, 0, vals, keys=keys, magic=rng.choice([0, 1]))
+        if kind in (2, 3) or (kind == 4 and k >= 2):
+            if rng.random() < 0.4 and _multi_member(rng, c):
+                stats["multi_member_gzip"] = stats.get("multi_member_gzip", 0) + 1
         if rng.random() < 0.3:
             c.log_of(TOPIC, 0).skip(rng.randrange(1, 4))
 
@@ -93,7 +119,20 @@ def gen_spec(rng):
                                    ["OffsetCommit", 14], ["OffsetCommit", 14], ["OffsetCommit", 15], ["OffsetCommit", 16]]),
         "group_fault_nth": rng.choice([1, 1, 2]),
         "prestored": rng.random() < 0.4,
+        # while the consumer is stopped the group's stored offset moves without this Consumer object learning of it
+        # (a commit by another member that owned the partition meanwhile / a commit whose reply was lost)
+        "foreign_commit": rng.random() < 0.5,
     }
+
+
+def gen_growth_spec(rng):
+    """An undisturbed run from the beginning over a log that holds a message larger than the fetch buffer: the buffer
+    must grow and everything must be delivered."""
+    spec = gen_spec(rng)
+    spec.update(small=False, big=True, buffer=rng.choice([128, 256, 512]), max_buffer=rng.choice([None, None, 2 ** 21, 2 ** 16]),
+                start=rng.choice(["earliest", "zero"]), faults=[], script="run", group_fault=None,
+                behaviour=rng.choice(["sync", "sync", ["async", 0.05]]))
+    return spec
 
 
 def run_spec(spec):
@@ -106,11 +145,12 @@ def run_spec(spec):
     if spec["api_versions"] == "old":
         for b in c.brokers.values():
             b.max_magic = 0 if rng.random() < 0.5 else 1
-    build_log(rng, c, spec["small"])
+    log_stats = {}
+    build_log(rng, c, spec["small"], big=spec.get("big", False), stats=log_stats)
     truth = c.log_of(TOPIC, 0).messages()  # [(offset, key, value, ts, magic)]
     offs = [m[0] for m in truth]
     rec = Recorder(c)
-    out = {"truth": [(m[0], m[1], m[2]) for m in truth], "errors": []}
+    out = {"truth": [(m[0], m[1], m[2]) for m in truth], "errors": [], "log_stats": log_stats}
     kw = dict(buffer_size=spec["buffer"], max_buffer_size=spec["max_buffer"], request_retry_init_delay=0.05, request_retry_max_delay=0.5)
     if spec["group"]:
         kw.update(consumer_group="g", auto_commit_every_n=spec["auto_n"], auto_commit_every_ms=0)
@@ -190,6 +230,15 @@ def run_spec(spec):
             elif phase == 2 and t >= 3.0 and not restarted:
                 restarted = True
                 lp = co.last_processed_offset
+                if (spec.get("foreign_commit") and spec["group"] and offs and out.get("committed_at_stop") is not None
+                        and out["committed_at_stop"] >= 0):
+                    others = [o for o in offs if o != out["committed_at_stop"]]
+                    if others:
+                        moved_to = rng.choice(others)
+                        c.offsets[("g", TOPIC, 0)] = dict(t=c.clock.seconds(), group="g", topic=TOPIC, partition=0, offset=moved_to, metadata="",
+                                                          generation=-1, member="", broker=c.coordinator_of("g"), conn=None, corr=None)
+                        out["foreign_commit"] = moved_to
+                        out["committed_at_stop"] = moved_to
                 if spec["group"] and out.get("committed_at_stop") is not None and out["committed_at_stop"] >= 0:
                     out["resume_from"] = ("committed", out["committed_at_stop"])
                     out["committed_at_start"]["start#2"] = c.committed("g", TOPIC, 0)
@@ -302,6 +351,22 @@ def analyse(spec, out):
         if fits and flat != truth:
             probs.append(("C02", "undisturbed run from the beginning delivered %d of %d log messages (first difference at index %d)"
                           % (len(flat), len(truth), next((i for i, (a, b) in enumerate(zip(flat, truth)) if a != b), min(len(flat), len(truth))))))
+    # ---- C14/C02: a fetch answered with nothing but a partial message makes the NEXT fetch of that position ask for more
+    #      (or, at the maximum, the start Deferred fails): the message is never skipped and never waited for in vain
+    fetches = [r for r in reqs if r["api"] == "Fetch" and _fetch_offsets(r)[0] is not None]
+    for a, b in zip(fetches, fetches[1:]):
+        oa, ma = _fetch_offsets(a)
+        ob, mb = _fetch_offsets(b)
+        if _is_partial(a, truth, oa, ma) and a.get("response") and not any(
+                e["kind"] == "issued" and e.get("label", "").startswith(("start#", "stop#")) and a["n"] < e["n"] < b["n"] for e in evs):
+            at_max = spec["max_buffer"] is not None and ma >= spec["max_buffer"]
+            if ob == oa and mb <= ma and not at_max:
+                probs.append(("C14", "fetch at offset %d with max_bytes=%d was answered with only a partial message; the next fetch asks for offset %d with max_bytes=%d: the buffer did not grow (max_buffer_size=%s)"
+                              % (oa, ma, ob, mb, spec["max_buffer"])))
+                break
+            if ob > oa:
+                probs.append(("C14", "fetch at offset %d (max_bytes=%d) answered with only a partial message; the next fetch asks for offset %d: the message was skipped" % (oa, ma, ob)))
+                break
     # ---- C13: nothing after the stop completed
     t_final = out["t_final_stop"]
     late_reqs = [r for r in reqs if r["t"] > t_final + 1e-9 and r["api"] in ("Fetch", "OffsetCommit", "ListOffsets", "OffsetFetch")]
@@ -397,13 +462,16 @@ def _is_partial(req, truth, off, mb):
     return False
 
 
-def run_stage(ctx, res, pid, n):
-    """n full-stack runs; failures of THIS property go to res.monitor_failures."""
+def run_stage(ctx, res, pid, n, gen=None, mine=None, label="fullstack"):
+    """n full-stack runs; failures of THIS property go to res.monitor_failures.  `gen`: spec generator (default
+    gen_spec); `mine`: the property ids whose problems count as failures of the calling check (default: pid)."""
     import json
 
+    gen = gen or gen_spec
+    mine = set(mine) if mine is not None else ({pid, "C04"} if pid == "C02" else {pid})
     lines_all, metas = [], []
     for i in range(n):
-        spec = gen_spec(ctx.rng)
+        spec = gen(ctx.rng)
         try:
             out = run_spec(spec)
         except Exception as e:  # the simulation could not run this spec: not a verdict
@@ -411,8 +479,14 @@ def run_stage(ctx, res, pid, n):
             res.notes.append("full-stack run failed to execute: %s %r" % (type(e).__name__, str(e)[:200]))
             continue
         probs, lines, names = analyse(spec, out)
-        res.count("fullstack:runs")
+        res.count(label + ":runs")
         res.count("fullstack:script=" + spec["script"])
+        for k, v in (out.get("log_stats") or {}).items():
+            res.count("fullstack:log:" + k, v)
+        if any(_is_partial(r, out["truth"], *_fetch_offsets(r)) for r in out["requests"] if r["api"] == "Fetch" and _fetch_offsets(r)[0] is not None):
+            res.count("fullstack:runs-with-a-partial-only-answer")
+        if "foreign_commit" in out:
+            res.count("fullstack:foreign-commit-before-restart")
         for f in spec["faults"]:
             res.count("fullstack:fault=" + f)
         res.count("fullstack:delivered", sum(len(e["offsets"]) for e in out["events"] if e["kind"] == "proc"))
@@ -434,12 +508,20 @@ def run_stage(ctx, res, pid, n):
             if a != ["ok"]:
                 probs.append((nm[:3].upper(), "Lean monitor %s rejects the full-stack trace" % nm))
         for prop, what in probs:
-            if prop == pid or (pid == "C02" and prop == "C04"):
+            if prop in mine:
                 res.monitor_failures.append({"what": "full stack: " + what, "scenario": {"fullstack_spec": spec}, "monitor": "fullstack", "tags": ["fullstack"]})
             else:
                 res.count("fullstack:other-property-problem:" + prop)
-    res.extra["fullstack_runs"] = res.hist.get("fullstack:runs", 0)
+    res.extra[label + "_runs"] = res.hist.get(label + ":runs", 0)
     res.traces_validated += len(metas)
+
+
+def growth_stage(ctx, res, pid, n, mine=("C02", "C14", "C12")):
+    """n undisturbed full-stack runs (real Consumer over the real KafkaClient over the simulated cluster) from the beginning
+    of a log that holds a message larger than the fetch buffer: the buffer must grow by the rule and EVERY message must be
+    delivered.  Every problem found (never-delivered message, buffer not growing, skipped message, growth rule) counts as
+    a failure of the calling check `pid` - callable from other packages' checks (e.g. harness/props/c12.py)."""
+    run_stage(ctx, res, pid, n, gen=gen_growth_spec, mine=set(mine) | {pid}, label="fullstack-growth")
 
 
 def replay_spec(spec):
